@@ -202,12 +202,21 @@ def rule_modes(ctx):
         if must_raise:
             ctx.check(any(b.kind == "else" and b.raises for b in br), "F6-modes", f"{q}: else raises", func=f, node=chain,
                       construct="mode-else-raise", msg="an unsupported mode must be rejected")
+        # a table may also be filled after the dispatch from a local that every branch sets (`trk, ch = ..` / `track[key] = trk`)
+        from .dispatch import _following
+        via_local = {}
+        for s_after in _following(chain):
+            for n in ast.walk(s_after):
+                if isinstance(n, ast.Assign) and isinstance(n.targets[0], ast.Subscript) and isinstance(n.targets[0].value, ast.Name) and isinstance(n.value, ast.Name):
+                    via_local.setdefault(n.value.id, set()).add(n.targets[0].value.id)
         for b in br:
             if b.kind != "eq":
                 continue
             stored = set()
             for s in b.body:
                 for n in ast.walk(s):
+                    if isinstance(n, ast.Name) and isinstance(n.ctx, ast.Store) and n.id in via_local:
+                        stored |= via_local[n.id]
                     if isinstance(n, ast.Subscript) and isinstance(n.ctx, ast.Store) and isinstance(n.value, ast.Name):
                         stored.add(n.value.id)
                     if isinstance(n, ast.Call) and isinstance(n.func, ast.Attribute) and n.func.attr == "setdefault" \
@@ -362,7 +371,7 @@ def rule_clock_agreement(ctx):
             and "10 ** 6" in txt and any(isinstance(x, ast.Name) and x.id == tpb for x in ast.walk(inner.left))
         ctx.check(ok, "CLOCK", f"{f.qname}:{txt[:40]}", func=f, node=call, construct=f"tick-formula:{txt[:30]}",
                   msg=f"`{txt}` is not of the form 10**6 * ppq * seconds / mpq")
-    ctx.floor("CLOCK", "tick formulas in save_performance_midi", n, 7)
+    ctx.floor("CLOCK", "tick formulas in save_performance_midi", n, 4)
     g = ctx.prog.func(f"{IMP}:load_performance_midi", "CLOCK")
     ctx.touch(g)
     ppq_def = [a for a in own_nodes(g.node) if isinstance(a, ast.Assign) and norm(a.value).endswith(".ticks_per_beat") and isinstance(a.targets[0], ast.Name)]
@@ -374,7 +383,39 @@ def rule_clock_agreement(ctx):
              and any(isinstance(x, ast.Attribute) and x.attr == "tempo" for a in own_nodes(g.node) if isinstance(a, ast.Assign)
                      and norm(a.targets[0]) == norm(n.args[0].elts[1]) for x in ast.walk(a.value))}
     calls = [n for n in own_nodes(g.node) if isinstance(n, ast.Call) and norm(n.func) == "adjust_time"]
-    ctx.floor("CLOCK", "adjust_time call sites", len(calls), 7)
+    ctx.floor("CLOCK", "adjust_time call sites", len(calls), 2)
+    # every kind of event the performed part carries gets its seconds from its own tick: the lists reached by the loops around
+    # the conversions (directly, or through a loop over a tuple of lists) cover notes, controls, programs, both signatures and the rest
+    defs_g = {}
+    for a in own_nodes(g.node):
+        if isinstance(a, ast.Assign) and len(a.targets) == 1 and isinstance(a.targets[0], ast.Name):
+            defs_g.setdefault(a.targets[0].id, []).append(a.value)
+    covered = set()
+
+    def lists_of(e, depth=0):
+        if isinstance(e, ast.Attribute):
+            return {e.attr}
+        if isinstance(e, (ast.Tuple, ast.List)):
+            return set().union(*[lists_of(x, depth + 1) for x in e.elts]) if e.elts else set()
+        if isinstance(e, ast.Name) and depth < 4:
+            out = set()
+            for v in defs_g.get(e.id, []):
+                out |= lists_of(v, depth + 1)
+            # a loop variable ranging over a display of lists
+            for lp in own_nodes(g.node):
+                if isinstance(lp, ast.For) and isinstance(lp.target, ast.Name) and lp.target.id == e.id:
+                    out |= lists_of(lp.iter, depth + 1)
+            return out
+        return set()
+    for c in calls:
+        p_ = getattr(c, "_parent", None)
+        while p_ is not None and p_ is not g.node:
+            if isinstance(p_, ast.For):
+                covered |= lists_of(p_.iter)
+            p_ = getattr(p_, "_parent", None)
+    want = {"notes", "controls", "programs", "time_signatures", "key_signatures", "meta_other"}
+    ctx.check(want <= covered, "CLOCK", f"{g.qname}: every event list is time-adjusted", func=g, construct=f"event-list-not-adjusted:{','.join(sorted(want - covered))}",
+              msg=f"the tempo-integrated times are not computed for {sorted(want - covered)} (lists reached by the adjust_time loops: {sorted(covered)})")
     for c in calls:
         ok = len(c.args) == 3 and norm(c.args[1]) in tlist and norm(c.args[2]) == ippq and norm(c.args[0]).endswith("_tick']")
         ctx.check(ok, "CLOCK", f"{g.qname}:{norm(c)[:50]}", func=g, node=c, construct=f"adjust_time-args:{norm(c.args[0])[:30]}",
@@ -417,30 +458,38 @@ def rule_note_pairing(ctx):
                     and isinstance(a.targets[0], ast.Name):
                 flags[a.value.comparators[0].value] = a.targets[0].id
         on_v, off_v = flags.get("note_on", "note_on"), flags.get("note_off", "note_off")
-        for n in own_nodes(f.node):
-            if isinstance(n, ast.If):
-                t = norm(n.test)
-                # (comparisons are read in canonical orientation: `a > b` is `b < a`, see core/program.py)
-                if t in (f"{on_v} and 0 < {msgv}.velocity", f"0 < {msgv}.velocity and {on_v}"):
-                    start = n
-                    if n.orelse and isinstance(n.orelse[0], ast.If):
-                        end = n.orelse[0]
-        ctx.check(start is not None, "F5e-pairing", f"{q}: start guard", func=f, construct="start-guard",
+        # the statements that open and close a sounding note, and the conditions under which they run (enclosing branches and
+        # earlier `if ..: continue` guards alike, comparisons in canonical orientation)
+        from .extra import _path_conditions
+        key = norm(keys[0]._parent.targets[0]) if keys and isinstance(getattr(keys[0], "_parent", None), ast.Assign) else None
+        opens = [n for n in own_nodes(f.node) if isinstance(n, ast.Assign) and isinstance(n.targets[0], ast.Subscript) and isinstance(n.targets[0].value, ast.Name)
+                 and key is not None and norm(n.targets[0].slice) == key]
+        tabs = {norm(n.targets[0].value) for n in opens}
+        closes = [n for n in own_nodes(f.node) if isinstance(n, ast.Delete) and any(isinstance(t, ast.Subscript) and norm(t.value) in tabs and norm(t.slice) == key for t in n.targets)]
+        ok_start = bool(opens)
+        for n in opens:
+            conds = _path_conditions(n, f.node)
+            ok_start = ok_start and on_v in conds and f"0 < {msgv}.velocity" in conds
+        ctx.check(ok_start, "F5e-pairing", f"{q}: start guard", func=f, node=opens[0] if opens else None, construct="start-guard",
                   msg="a note starts on note_on with velocity > 0")
-        if end is not None:
-            t = end.test
-            disj = {norm(v) for v in t.values} if isinstance(t, ast.BoolOp) and isinstance(t.op, ast.Or) else {norm(t)}
-            ok = off_v in disj and any(d in disj for d in (f"{on_v} and {msgv}.velocity == 0", f"{msgv}.velocity == 0 and {on_v}"))
-        else:
-            ok = False
-        ctx.check(ok, "F5e-pairing", f"{q}: end guard", func=f, node=end, construct="end-guard",
+        ok_end = bool(closes)
+        for n in closes:
+            conds = _path_conditions(n, f.node)
+            hit = False
+            for c in conds:
+                try:
+                    e = ast.parse(c, mode="eval").body
+                except SyntaxError:
+                    continue
+                if isinstance(e, ast.BoolOp) and isinstance(e.op, ast.Or):
+                    dis = {norm(v) for v in e.values}
+                    if off_v in dis and any(d in dis for d in (f"{on_v} and {msgv}.velocity == 0", f"{msgv}.velocity == 0 and {on_v}")):
+                        hit = True
+            ok_end = ok_end and hit
+        ctx.check(ok_end, "F5e-pairing", f"{q}: end guard", func=f, node=closes[0] if closes else None, construct="end-guard",
                   msg="a note ends on note_off or on note_on with velocity 0 (running-status files)")
-        if start is not None:
-            stores = [n for n in ast.walk(start) if isinstance(n, ast.Subscript) and isinstance(n.ctx, ast.Store) and isinstance(n.value, ast.Name)]
-            tabs = {norm(n.value) for n in stores}
-            dels = [n for n in ast.walk(end) if isinstance(n, ast.Delete) and any(isinstance(t, ast.Subscript) and norm(t.value) in tabs for t in n.targets)] if end is not None else []
-            ctx.check(bool(stores) and bool(dels), "F5e-pairing", f"{q}: open/close bookkeeping", func=f, construct="sounding-bookkeeping",
-                      msg="a started note is stored in sounding_notes and removed when it ends (pairs each note-on with the *next* off)")
+        ctx.check(bool(opens) and bool(closes), "F5e-pairing", f"{q}: open/close bookkeeping", func=f, construct="sounding-bookkeeping",
+                  msg="a started note is stored in sounding_notes and removed when it ends (pairs each note-on with the *next* off)")
 
 
 def rule_id_order(ctx):
